@@ -81,6 +81,17 @@ void two_grids_case(size_t n) {
   check("second-grid", s2, h);
   check("first-grid-again", s1, g);
   check("second-grid-again", s2, h);
+  // one spline OBJECT that is re-assigned between the grids (its embedded Grid object keeps its address), with the window of the
+  // second operand starting at the interval index processed last
+  auto s3 = mkspline<o>(H, n - 2, n, "f");
+  Spline<Real, o> cur = s1;
+  check("object/first-grid", cur, g);
+  cur = s3;
+  check("object/reassigned-to-second-grid-last-interval", cur, h);
+  cur = s1;
+  check("object/back-on-first-grid", cur, g);
+  cur = s2;
+  check("object/reassigned-to-second-grid", cur, h);
 }
 
 template <size_t d, size_t o>
